@@ -49,6 +49,9 @@ fn contexts() -> Vec<&'static str> {
         "IF {e} THEN PRINT 1 ELSE IF 1 THEN PRINT 2 ELSE PRINT 3",
         "IF {e} THEN GOSUB 100 ELSE GOSUB 100",
         "IF {e} THEN FOR I = 1 TO 2 ELSE PRINT 2: NEXT I",
+        // nested IFs whose inner ELSE clause transfers control and is resumed before the outer ELSE
+        "IF 1 THEN IF {e} THEN PRINT 1 ELSE GOSUB 100 ELSE PRINT 3",
+        "IF {e} THEN IF 0 THEN PRINT 1 ELSE GOSUB 100 ELSE GOSUB 100",
         // an IF that is not the first statement of its line, resumed inside its THEN clause
         "Y = 1: IF {e} THEN GOSUB 100 ELSE PRINT 2",
         "PRINT 1;: Y = 2: IF {e} THEN GOSUB 100 ELSE GOSUB 100",
